@@ -25,6 +25,8 @@ import (
 	"testing"
 	"time"
 
+	"github.com/hashicorp/raft"
+	"github.com/rqlite/rqlite/v10/command"
 	"github.com/rqlite/rqlite/v10/command/proto"
 )
 
@@ -67,7 +69,7 @@ func c16StalePart(t *testing.T, rep *vfReport) {
 	fresh := []int64{0, 1, -1, 2, 999, 1e6, 5e8, 1e9, 1e9 + 1, 60e9, 3600e9, 1<<63 - 1, 1<<63 - 2, -1 << 63, -(1 << 62), 1 << 62}
 	hour := int64(3600e9)
 	var ops, impl []string
-	n := vfScale(6000, 200000)
+	n := vfScale(6000, 600000)
 	for i := 0; i < n; i++ {
 		f := fresh[r.Intn(len(fresh))]
 		if r.Chance(15) {
@@ -307,7 +309,7 @@ func c16DispatchPart(t *testing.T, rep *vfReport) {
 		}
 		return out
 	}
-	rounds := vfScale(1, 4)
+	rounds := vfScale(1, 12)
 	for round := 0; round < rounds; round++ {
 		for _, n := range order {
 			role := roles[n]
@@ -416,9 +418,128 @@ done:
 	rep.vfCompare("readlevel", ops, impl, nil)
 }
 
+// ---- Part C: the bookkeeping the strict check reads ---------------------------------
+//
+// The REAL Store.fsmApply is handed log entries of every command type (mutating execute,
+// execute that changes nothing, strong read, execute-query with only reads, no-op) with a
+// chosen leader append time (on time / late by 10 s / late by 2 min). After each entry:
+//   * correspondence: (fsmIdx, fsmUpdateTime, appendedAtTime) equal the model's Book
+//     after `bookapply`, and IsStaleRead fed with the store's own fields (exactly the
+//     arguments (*Store).isStaleRead passes) equals the model's verdict for a node that is
+//     in contact but behind;
+//   * spec oracle: "refused in strict mode when it is behind and its LAST APPLIED entry was
+//     appended more than the bound before it was applied" — for the entry just applied.
+func c16BookPart(t *testing.T, rep *vfReport) {
+	c := clu8NewCluster(t)
+	defer c.Close()
+	n0, err := c.NewNode()
+	if err != nil {
+		t.Fatalf("C16 harness: %v", err)
+	}
+	if err := c.Bootstrap(n0); err != nil {
+		t.Fatalf("C16 harness: %v", err)
+	}
+	s := n0.S
+	if err := clu8Exec(s, "CREATE TABLE c16b (id INTEGER PRIMARY KEY, v INTEGER)"); err != nil {
+		t.Fatalf("C16 harness: %v", err)
+	}
+	if !clu8Quiesce(n0, 30*time.Second) {
+		t.Fatalf("C16 harness: node did not quiesce")
+	}
+	mk := func(kind string, i int) []byte {
+		wrap := func(ty proto.Command_Type, rq command.Requester) []byte {
+			b, compressed, err := s.tryCompress(rq)
+			if err != nil {
+				t.Fatalf("C16 harness: %v", err)
+			}
+			data, err := command.Marshal(&proto.Command{Type: ty, SubCommand: b, Compressed: compressed})
+			if err != nil {
+				t.Fatalf("C16 harness: %v", err)
+			}
+			return data
+		}
+		switch kind {
+		case "execute-insert":
+			return wrap(proto.Command_COMMAND_TYPE_EXECUTE, executeRequestFromString(fmt.Sprintf("INSERT INTO c16b(v) VALUES(%d)", i), false, false))
+		case "execute-no-change":
+			return wrap(proto.Command_COMMAND_TYPE_EXECUTE, executeRequestFromString("UPDATE c16b SET v=1 WHERE id=-5", false, false))
+		case "strong-read":
+			return wrap(proto.Command_COMMAND_TYPE_QUERY, queryRequestFromString("SELECT COUNT(*) FROM c16b", false, false, false))
+		case "execute-query-reads":
+			return wrap(proto.Command_COMMAND_TYPE_EXECUTE_QUERY, executeQueryRequestFromString("SELECT COUNT(*) FROM c16b", proto.ConsistencyLevel_STRONG, false, false, false))
+		default: // noop
+			nb, err := command.MarshalNoop(&proto.Noop{Id: "c16"})
+			if err != nil {
+				t.Fatalf("C16 harness: %v", err)
+			}
+			data, err := command.Marshal(&proto.Command{Type: proto.Command_COMMAND_TYPE_NOOP, SubCommand: nb})
+			if err != nil {
+				t.Fatalf("C16 harness: %v", err)
+			}
+			return data
+		}
+	}
+	kinds := []string{"execute-insert", "execute-no-change", "strong-read", "execute-query-reads", "noop"}
+	lates := []time.Duration{0, 10 * time.Second, 2 * time.Minute}
+	bounds := []time.Duration{time.Second, 30 * time.Second, time.Hour}
+	r := vfNewRng(1603)
+	ops := []string{"bookreset"}
+	impl := []string{"ok"}
+	idx := s.fsmIdx.Load() + 1000
+	term := s.raft.CurrentTerm()
+	n := vfScale(60, 3000)
+	for i := 0; i < n; i++ {
+		kind := kinds[i%len(kinds)]
+		if i >= 2*len(kinds) {
+			kind = kinds[r.Intn(len(kinds))]
+		}
+		late := lates[r.Intn(len(lates))]
+		if i < len(kinds) {
+			late = 10 * time.Second // the first round: every kind, late
+		}
+		idx++
+		appended := time.Now().Add(-late)
+		t0 := time.Now()
+		s.fsmApply(&raft.Log{Index: idx, Term: term, Type: raft.LogCommand, Data: mk(kind, i), AppendedAt: appended})
+		t1 := time.Now()
+		gotIdx, gotUpd, gotApp := s.fsmIdx.Load(), s.fsmUpdateTime.Load(), s.appendedAtTime.Load()
+		replay := map[string]interface{}{"entry_kind": kind, "index": idx, "appended_ago": late.String()}
+		// the three values describe the entry just applied
+		if gotIdx != idx || !gotApp.Equal(appended) || gotUpd.Before(t0) || gotUpd.After(t1) {
+			rep.Fail("fsm-bookkeeping-does-not-describe-last-applied-entry:"+kind,
+				fmt.Sprintf("after fsmApply of a %s entry (index %d, appended %s ago): fsmIdx=%d, appendedAtTime is %s old, fsmUpdateTime is %s old — they do not all describe that entry",
+					kind, idx, late, gotIdx, time.Since(gotApp).Round(time.Millisecond), time.Since(gotUpd).Round(time.Millisecond)), replay)
+		}
+		ops = append(ops, fmt.Sprintf("bookapply %d %d %d", idx, gotUpd.UnixNano(), appended.UnixNano()), "book")
+		impl = append(impl, "ok", fmt.Sprintf("%d %d %d", gotIdx, gotUpd.UnixNano(), gotApp.UnixNano()))
+		for _, f := range bounds {
+			// a node in contact with the leader right now, one command entry behind, strict mode:
+			// exactly what (*Store).isStaleRead would pass for a follower
+			now := time.Now()
+			got := IsStaleRead(now.Add(time.Hour), gotUpd, gotApp, gotIdx, idx+1, int64(f), true)
+			ops = append(ops, fmt.Sprintf("bookstale %d %d %d %d true", now.UnixNano(), now.Add(time.Hour).UnixNano(), idx+1, int64(f)))
+			impl = append(impl, vfBool(got))
+			lag := t0.Sub(appended) // the entry was applied at least this long after it was appended
+			margin := 500 * time.Millisecond
+			rep.Case(fmt.Sprintf("book|%s|%s|%s", kind, late, f), kind != "execute-insert")
+			rep.Count(fmt.Sprintf("book:%s:late=%s:bound=%s->%v", kind, late, f, got))
+			switch {
+			case lag > f+margin && !got:
+				rep.Fail("strict-none-read-served-after-late-entry:"+kind,
+					fmt.Sprintf("the last applied entry (%s, index %d) was applied %s after the leader appended it; a node that is behind must refuse a strict none read with freshness %s, but IsStaleRead on the store's fields says fresh", kind, idx, lag.Round(time.Millisecond), f), replay)
+			case t1.Sub(appended)+margin < f && got:
+				rep.Fail("strict-none-read-refused-after-timely-entry:"+kind,
+					fmt.Sprintf("the last applied entry (%s, index %d) was applied %s after it was appended, within the bound %s, but the read is refused", kind, idx, t1.Sub(appended).Round(time.Millisecond), f), replay)
+			}
+		}
+	}
+	rep.vfCompare("readlevel", ops, impl, nil)
+}
+
 func TestVerifC16(t *testing.T) {
-	rep := vfNewReport("C16", "A: store.IsStaleRead on boundary-value inputs (freshness incl. 0, ±1, int64 extremes; FSM-update minus appended-at exactly at freshness-2..+2 and saturating; contact age clearly older/younger than the bound, never, in the future; equal/unequal indexes) — non-trivial when freshness is set, distinct by input; B: live cluster, every level x node role (leader / voting follower / non-voter) x freshness {unset,1ns,1ns strict,1h,1h strict} x {Query, read-only Request, Request with a write} — distinct by (api, role, freshness, level, outcome)")
+	rep := vfNewReport("C16", "A: store.IsStaleRead on boundary-value inputs (freshness incl. 0, ±1, int64 extremes; FSM-update minus appended-at exactly at freshness-2..+2 and saturating; contact age clearly older/younger than the bound, never, in the future; equal/unequal indexes) — non-trivial when freshness is set, distinct by input; B: live cluster, every level x node role (leader / voting follower / non-voter) x freshness {unset,1ns,1ns strict,1h,1h strict} x {Query, read-only Request, Request with a write} — distinct by (api, role, freshness, level, outcome); C: the real Store.fsmApply fed entries of every command type (insert, execute changing nothing, strong read, read-only execute-query, no-op) appended 0 s / 10 s / 2 min earlier, then the strict decision for bounds 1 s / 30 s / 1 h on the store's own bookkeeping — non-trivial when the entry does not change the database")
 	defer rep.Write()
 	c16StalePart(t, rep)
 	c16DispatchPart(t, rep)
+	c16BookPart(t, rep)
 }
